@@ -51,6 +51,9 @@ func runSyncScenario(t testing.TB, rec *vRec, sc *prodScenario) {
 		"interceptors": 0, "sync": true, "maxReqSize": 0, "version": cfgv.Version})
 	c := newSimCluster(t, rec, cfgv.NBrokers, cfgv.Leaders)
 	defer c.Close()
+	if cfgv.IDBase0 {
+		c.SetIDBase(0)
+	}
 	for k, p := range sc.Plans {
 		var n int
 		fmt.Sscanf(k, "%d", &n)
